@@ -53,6 +53,7 @@ def plan(tier, seed):
     for s in range(nr):
         jobs.append({"variant": "c" if s % 2 == 0 else "py", "part": "random", "shard": s, "nshards": nr,
                      "params": {"n": 400000 if thorough else 15000}})
+        jobs.append({"variant": "c" if s % 2 == 0 else "py", "part": "optree", "shard": s, "nshards": nr, "params": {"n": 150000 if thorough else 6000}})
     return jobs
 
 
@@ -361,6 +362,11 @@ ALPHA14 = "a:/?#@[]1v.%é "
 def run(ctx):
     if ctx.part == "replay":
         c = ctx.params["replay"]["case"]
+        if "op" in c:
+            from ..ops import replay_optree
+
+            replay_optree(ctx, c, lambda c_, u, case: recomposition(c_, u, dict(case, encoded=False)))
+            return
         check_one(ctx, c["s"], c["encoded"], "replay")
         return
     if ctx.part == "kernel":
@@ -425,6 +431,11 @@ def run(ctx):
                 n += 1
         ctx.sample({"s": "\u212aafka://broker:9092/t", "encoded": True})
         ctx.notes["codepoint_cases"] = n
+        return
+    if ctx.part == "optree":
+        from ..ops import run_optrees
+
+        run_optrees(ctx, lambda c_, u, case: recomposition(c_, u, dict(case, encoded=False)), ctx.params["n"], surrogates=False)
         return
     # random + structured
     tg = TextGen(ctx.rng, surrogates=False)
